@@ -26,6 +26,8 @@ func main() {
 	switch os.Args[1] {
 	case "run":
 		os.Exit(props.Run(os.Args[2], tier))
+	case "selftest":
+		os.Exit(props.SelfTest(os.Args[2], tier))
 	case "replay":
 		if len(os.Args) < 4 {
 			fmt.Fprintln(os.Stderr, "usage: vcheck replay <PROP> <file>")
